@@ -7,6 +7,7 @@ from .runner import M
 TF = "src/allmydata/util/time_format.py"
 AB = "src/allmydata/util/abbreviate.py"
 CL = "src/allmydata/client.py"
+ND = "src/allmydata/node.py"
 
 SIZE_MATCH = 'm = re.match(r"^(\\d+)\\s*([KMGTPE]?[I]?[B]?)$", s.upper())'
 DUR_PATTERN = 'pattern = rf"^\\s*(\\d+)\\s*({unit_pattern})\\s*$"'
@@ -16,6 +17,13 @@ DATE_GUARD = '    if not re.fullmatch(r"\\d{4}-\\d{2}-\\d{2}", s):'
 ISO_MATCH = "    m = _conversion_re.match(isotime)"
 ISO_PAT = (r'r"(?P<year>\d{4})-(?P<month>\d{2})-(?P<day>\d{2})[T_ ](?P<hour>\d{2}):(?P<minute>\d{2}):(?P<second>\d{2})'
            r'(?P<subsecond>\.\d+)?"')
+ISO_FIELDS = "    hour, minute, second = int(m.group('hour')), int(m.group('minute')), int(m.group('second'))\n"
+GC_EXCEPT = "        except (configparser.NoOptionError, configparser.NoSectionError):\n            if default is _None:"
+GC_TAIL = ("            if default is _None:\n                raise MissingConfigEntry(\n"
+           "                    \"{} is missing the [{}]{} entry\".format(\n"
+           "                        quote_output(self._config_fname),\n                        section,\n"
+           "                        option,\n                    )\n                )\n            return default\n")
+ITEMS_EXCEPT = "            return self.config.items(section)\n        except configparser.NoSectionError:"
 ISO_DEF = "def iso_utc_time_to_seconds(isotime, _conversion_re=re.compile(" + ISO_PAT + ")):"
 
 MUTANTS = [
@@ -206,6 +214,21 @@ MUTANTS = [
     M("benign-override-guard-truthy", CL,
       "        if o_l_d is not None:\n            o_l_d = parse_duration(o_l_d)", "        if o_l_d:\n            o_l_d = parse_duration(o_l_d)", None,
       note="differs only for an empty override value, which the [storage] reader does not produce"),
+    M("reserved-read-error-swallowed", CL,
+      '        data = self.config.get_config("storage", "reserved_space", None)\n',
+      '        try:\n            data = self.config.get_config("storage", "reserved_space", None)\n'
+      '        except Exception:\n            data = None\n', "C48.8",
+      note="the caller-side form of seeded C48-F: 'reserved_space = 10%' is read as nothing reserved"),
+    M("cutoff-read-error-swallowed", CL,
+      '            cutoff_date = self.config.get_config("storage", "expire.cutoff_date")\n            cutoff_date = parse_date(cutoff_date)\n',
+      '            try:\n                cutoff_date = self.config.get_config("storage", "expire.cutoff_date")\n'
+      '                cutoff_date = parse_date(cutoff_date)\n            except configparser.Error:\n                cutoff_date = None\n',
+      "C48.8", edits=[(CL, "import weakref\n", "import weakref\nimport configparser\n")]),
+    M("benign-reserved-missing-entry-handled", CL,
+      '        data = self.config.get_config("storage", "reserved_space", None)\n',
+      '        try:\n            data = self.config.get_config("storage", "reserved_space")\n'
+      '        except MissingConfigEntry:\n            data = None\n', None,
+      edits=[(CL, "from allmydata.node import _Config\n", "from allmydata.node import _Config, MissingConfigEntry\n")]),
     M("benign-reserved-reraise-as-config-error", CL,
       "                    % data)\n            raise\n", "                    % data)\n            raise ValueError(\"[storage]reserved_space\")\n", None),
     # ---- C48.9 what abbreviate_space prints means the size (all of these are also caught by test_abbreviate)
@@ -220,6 +243,89 @@ MUTANTS = [
       '        return r(s/U, "k")', '        kilo = s/U\n        return r(kilo, "k")', None),
     M("benign-printer-else-chain", AB,
       '    if s < U*U:\n        return r(s/U, "k")\n    if s < U*U*U:', '    if s < U*U:\n        return r(s/U, "k")\n    elif s < U*U*U:', None),
+    # ---- C48.5 every calendar date is a legal cutoff date (seeded C48-E): a range check on the fields is evaluated with
+    # the library's own tables on month ends and leap days
+    M("date-day-bound-mdays", TF, ISO_FIELDS,
+      ISO_FIELDS + "    if not (1 <= month <= 12 and 1 <= day <= calendar.mdays[month]):\n"
+      "        raise ValueError(isotime, \"not a valid calendar date\")\n", "C48.5",
+      note="seeded C48-E: calendar.mdays has 28 for February, so 2024-02-29 is rejected"),
+    M("date-day-bound-fixed-year", TF, ISO_FIELDS,
+      ISO_FIELDS + "    datetime.date(1970, month, day)  # raises ValueError for an impossible day\n", "C48.5",
+      note="validates the day against a non-leap year: 29 February is rejected"),
+    M("date-day-bound-february-28", TF, ISO_FIELDS,
+      ISO_FIELDS + "    if month == 2 and day > 28 or day > 31:\n        raise ValueError(isotime, \"day out of range\")\n", "C48.5"),
+    M("date-day-bound-leap-rule-no-century", TF, ISO_FIELDS,
+      ISO_FIELDS + "    month_days = calendar.mdays[month] + (1 if month == 2 and year % 4 == 0 and year % 100 != 0 else 0)\n"
+      "    if day > month_days:\n        raise ValueError(isotime, \"day out of range\")\n", "C48.5",
+      note="hand-written leap rule without the 400-year exception: 2000-02-29 is rejected"),
+    M("date-day-bound-30", TF, ISO_FIELDS,
+      ISO_FIELDS + "    assert 1 <= day <= 30, isotime\n", "C48.5", note="the 31st of a month is rejected"),
+    M("benign-date-day-bound-monthrange", TF, ISO_FIELDS,
+      ISO_FIELDS + "    if not (1 <= month <= 12 and 1 <= day <= calendar.monthrange(year, month)[1]):\n"
+      "        raise ValueError(isotime, \"not a valid calendar date\")\n", None),
+    M("benign-date-day-bound-isleap", TF, ISO_FIELDS,
+      ISO_FIELDS + "    month_days = calendar.mdays[month] + (1 if month == 2 and calendar.isleap(year) else 0)\n"
+      "    if day < 1 or day > month_days:\n        raise ValueError(isotime, \"not a valid calendar date\")\n", None),
+    M("benign-date-validated-by-datetime", TF, ISO_FIELDS,
+      ISO_FIELDS + "    try:\n        datetime.date(year, month, day)\n    except ValueError:\n"
+      "        raise ValueError(isotime, \"not a valid calendar date\")\n", None),
+    M("benign-date-time-of-day-bound", TF, ISO_FIELDS,
+      ISO_FIELDS + "    if hour > 23 or minute > 59 or second > 60:\n        raise ValueError(isotime, \"not a valid time of day\")\n", None),
+    M("date-parse-date-day-bound-mdays", TF, '    return int(iso_utc_time_to_seconds(s + "T00:00:00"))',
+      '    month, day = int(s[5:7]), int(s[8:10])\n    if not 1 <= day <= calendar.mdays[month]:\n'
+      '        raise ValueError(s, "no such day")\n    return int(iso_utc_time_to_seconds(s + "T00:00:00"))', "C48.5",
+      note="the same slip at the sibling site: parse_date itself checks the day against the leap-less table"),
+    M("date-parse-date-year-window", TF, '    return int(iso_utc_time_to_seconds(s + "T00:00:00"))',
+      '    if not 1970 <= int(s[:4]) <= 2037:\n        raise ValueError(s, "year out of range")\n'
+      '    return int(iso_utc_time_to_seconds(s + "T00:00:00"))', "C48.5"),
+    M("benign-date-parse-date-day-bound-monthrange", TF, '    return int(iso_utc_time_to_seconds(s + "T00:00:00"))',
+      '    year, month, day = map(int, s.split("-"))\n    if not (1 <= month <= 12 and 1 <= day <= calendar.monthrange(year, month)[1]):\n'
+      '        raise ValueError(s, "no such day")\n    return int(iso_utc_time_to_seconds(s + "T00:00:00"))', None),
+    # ---- C48.10 the accessor gives the default only for the 'absent' exception classes (seeded C48-F)
+    M("config-catches-error-base", ND, GC_EXCEPT,
+      "        except configparser.Error:\n            if default is _None:", "C48.10",
+      note="seeded C48-F: 'reserved_space = 10%' raises InterpolationSyntaxError, which is swallowed: reserved_space = 0"),
+    M("config-catches-exception", ND, GC_EXCEPT,
+      "        except Exception:\n            if default is _None:", "C48.10"),
+    M("config-catches-interpolation-too", ND, GC_EXCEPT,
+      "        except (configparser.NoOptionError, configparser.NoSectionError, configparser.InterpolationError):\n"
+      "            if default is _None:", "C48.10"),
+    M("config-catches-valueerror-of-getboolean", ND, GC_EXCEPT,
+      "        except (configparser.NoOptionError, configparser.NoSectionError, ValueError):\n            if default is _None:",
+      "C48.10", note="'enabled = maybe' is read as the default instead of being rejected"),
+    M("config-error-tuple-constant", ND, "class MissingConfigEntry(Exception):\n",
+      "_UNREADABLE = (configparser.NoOptionError, configparser.NoSectionError, configparser.InterpolationSyntaxError)\n\n\nclass MissingConfigEntry(Exception):\n",
+      "C48.10", edits=[(ND, GC_EXCEPT, "        except _UNREADABLE:\n            if default is _None:")]),
+    M("config-items-catches-error-base", ND, ITEMS_EXCEPT,
+      "            return self.config.items(section)\n        except configparser.Error:", "C48.10",
+      note="sibling accessor: a section with one malformed value is read as the default"),
+    M("config-narrowing-inverted", ND, GC_EXCEPT,
+      "        except configparser.Error as e:\n            if isinstance(e, (configparser.NoOptionError, configparser.NoSectionError)):\n"
+      "                raise\n            if default is _None:", "C48.10"),
+    M("benign-config-absent-tuple-constant", ND, "class MissingConfigEntry(Exception):\n",
+      "_ABSENT = (configparser.NoOptionError, configparser.NoSectionError)\n\n\nclass MissingConfigEntry(Exception):\n", None,
+      edits=[(ND, GC_EXCEPT, "        except _ABSENT:\n            if default is _None:")]),
+    M("benign-config-narrowed-by-isinstance", ND, GC_EXCEPT,
+      "        except configparser.Error as e:\n            if not isinstance(e, (configparser.NoOptionError, configparser.NoSectionError)):\n"
+      "                raise\n            if default is _None:", None),
+    M("benign-config-interpolation-reraised", ND, GC_EXCEPT,
+      "        except configparser.InterpolationError as e:\n"
+      "            raise ValueError(\"[{}]{}: {}\".format(section, option, e))\n" + GC_EXCEPT, None),
+    M("benign-config-separate-handlers", ND, GC_EXCEPT + "\n" + GC_TAIL.split("\n", 1)[1],
+      "        except configparser.NoSectionError:\n" + GC_TAIL + "        except configparser.NoOptionError:\n" + GC_TAIL, None),
+    M("config-section-suppress-error-base", ND, "import configparser\n", "import configparser\nimport contextlib\n", "C48.10",
+      edits=[(ND, "        try:\n            for k in self.config.options(section):\n                answer[k] = self.config.get(section, k)\n"
+              "        except configparser.NoSectionError:\n            pass\n",
+              "        with contextlib.suppress(configparser.Error):\n            for k in self.config.options(section):\n"
+              "                answer[k] = self.config.get(section, k)\n")],
+      note="a section with one malformed value is silently truncated"),
+    M("benign-config-section-suppress-absent", ND, "import configparser\n", "import configparser\nimport contextlib\n", None,
+      edits=[(ND, "        try:\n            for k in self.config.options(section):\n                answer[k] = self.config.get(section, k)\n"
+              "        except configparser.NoSectionError:\n            pass\n",
+              "        with contextlib.suppress(configparser.NoSectionError):\n            for k in self.config.options(section):\n"
+              "                answer[k] = self.config.get(section, k)\n")]),
+    M("vanish-get-config", ND, "    def get_config(self, section, option, default=_None, boolean=False):",
+      "    def get_config_value(self, section, option, default=_None, boolean=False):", "ANALYSIS-ERROR"),
     # ---- vanished anchor
     M("vanish-parse-duration", TF, "def parse_duration(s):", "def parse_duration_string(s):", "ANALYSIS-ERROR"),
 ]
